@@ -42,7 +42,10 @@ C03_Retrievable ==
                 \/ (~g.ss[s].upging /\ ~g.ss[s].upged)
                 \/ (g.ss[s].upging /\ wsr[s].st \in {"probe", "upg"})
                 \/ (g.ss[s].upged /\ (wsw[s] \in {"new", "run"} \/ wsr[s].st = "dead"))
-\* polling never hands out messages of an upgraded session
+\* NOT a listed property (kept for experiments): once a message travelled on the websocket no
+\* later one travels on polling.  A long poll that was already pending when the upgrade began
+\* may legitimately outlive the handshake and carry a later message (the statement constrains
+\* polling reads that START after the upgrade began; those get NOOP by PollReq).
 C03_PollingOnlyBeforeUpgrade ==
     \A s \in Sid : \A i, j \in 1..Len(g.deliv[s]) :
         (i < j /\ g.deliv[s][i][2] = "ws") => g.deliv[s][j][2] = "ws"
